@@ -239,6 +239,9 @@ var c19Splices = [][2]string{
 	{"@each(v in a)@continue", "x@end"},
 	{"{{ \"", "\" }}y"},
 	{"{{ 1 }}", "@if(x)z@end"},
+	{"@component(\"c\")@slot", "(\"n\")x@end@end"},
+	{"@if", "(x)y@end"},
+	{"@each", "(v in a)y@end"},
 }
 
 // HarnessC19Splice: a hole of K symbolic bytes between concrete construct halves (inside a comment, right after a
